@@ -33,7 +33,7 @@ def last_wait(out, markers):
     return last or k
 
 
-def gen_scenarios(c, nref, lastwait, nspawn):
+def gen_scenarios(c, nref, lastwait, nspawn, nspawn_tok=0):
     rng = c.rng
     scs = []
     k = 0
@@ -57,6 +57,17 @@ def gen_scenarios(c, nref, lastwait, nspawn):
         add("chain2", {"phase": "running:1"}, "late", "GHUP")
         k += 1
         scs.append(cases.sc_frozen_orphan(f"s{k:04d}", nspawn))
+        # the job cannot be adopted (no pid file / empty pid file) and keeps running well into the second run
+        k += 1
+        scs.append(cases.sc_long_orphan(f"s{k:04d}", "one", nspawn, wait=7.0))
+        k += 1
+        scs.append(cases.sc_long_orphan(f"s{k:04d}", "one", nspawn + 1, wait=7.0, sig="TERM"))
+        # the job ends while the second run looks for its process; empty pid file + token + slow start
+        k += 1
+        scs.append(cases.sc_toctou(f"s{k:04d}"))
+        if nspawn_tok:
+            k += 1
+            scs.append(cases.sc_token_empty_pid(f"s{k:04d}", nspawn_tok + 1))
         k += 1
         scs.append(cases.sc_linger(f"s{k:04d}", "KILL"))
         k += 1
@@ -64,7 +75,7 @@ def gen_scenarios(c, nref, lastwait, nspawn):
         for sig, latch in (("TERM", "late"), ("KILL", "early")):
             k += 1
             scs.append(cases.sc_token_restart(f"s{k:04d}", sig, "running:1", latch))
-        steps = dict(one=3, chain2=6, indep2=11)
+        steps = dict(one=4, chain2=7, indep2=12)
         per = {}
         for kind in ("one", "chain2", "indep2"):
             off = rng.randrange(steps[kind])
@@ -95,6 +106,17 @@ def gen_scenarios(c, nref, lastwait, nspawn):
                          ("indep2", "running:2")):
             for sig in ("GINT", "GHUP", "GTERM"):
                 add(kind, {"phase": ph}, rng.choice(["late", "early"]), sig)
+        for i in range(6):
+            k += 1
+            scs.append(cases.sc_long_orphan(f"s{k:04d}", rng.choice(["one", "one", "indep2"]), nspawn + (i % 3),
+                                            wait=rng.choice([6.5, 8.0]), sig=SIGNALS[i % 2]))
+        for sig in SIGNALS[:2]:
+            k += 1
+            scs.append(cases.sc_toctou(f"s{k:04d}", sig))
+        if nspawn_tok:
+            for i in range(4):
+                k += 1
+                scs.append(cases.sc_token_empty_pid(f"s{k:04d}", nspawn_tok + 1 + (i % 2), thaw=rng.choice([1.0, 2.0, 3.0])))
         for sig in SIGNALS:
             k += 1
             scs.append(cases.sc_linger(f"s{k:04d}", sig))
@@ -118,7 +140,7 @@ def hang_signature(sc, out, rows):
     the shared log has been silent for a while"""
     if not out["timed_out"] or not out.get("alive_at_end"):
         return None
-    if (out.get("quiet_s") or 0) < 10 or not out.get("latch_open") or out.get("jobs_alive_at_end"):
+    if (out.get("quiet_s") or 0) < 12 or not out.get("latch_open"):
         return None
     begun = {(r["tag"], r["pid"]) for r in rows if r["who"] == "P" and r["kind"] == "begin"}
     ended = {(r["tag"], r["pid"]) for r in rows if r["who"] == "P" and r["kind"] == "end"}
@@ -143,7 +165,9 @@ def oracle(c, sc, out):
     verdict = "ok"
     hs = hang_signature(sc, out, rows)
     if hs is not None:
-        key = ("C11:empty-pid-file-stuck" if hs["empty_pid_files"] else
+        key = ("C11:pid-file-vanishes-during-lookup-stuck" if sc["meta"].get("toctou") else
+               "C11:token-watcher-spins-on-empty-pid-file" if sc["meta"].get("token_empty_pid") else
+               "C11:empty-pid-file-stuck" if hs["empty_pid_files"] else
                "C11:token-not-reclaimed-stuck" if sc["meta"].get("token") and hs["jobs_never_started"] else "C11:restart-stuck")
         c.violation(key, "the experiment run again after the kill never ends: " + json.dumps(hs), data)
         return "violation"
@@ -282,7 +306,7 @@ def run(c: Check):
         scs = [dict(rp["scenario"], id=f"replay{i}") for i in range(3)] if "scenario" in rp else []
         refs = []
     else:
-        refs = [cases.sc_reference(k) for k in ("one", "chain2", "indep2")]
+        refs = [cases.sc_reference(k) for k in ("one", "chain2", "indep2", "tok1")]
         scs = []
         try:
             gold = json.load(open(os.path.join(os.path.dirname(__file__), "..", "golden", "c11.json")))
@@ -290,25 +314,28 @@ def run(c: Check):
             gold = []
         for i, g in enumerate(gold):
             scs.append(dict(g, id=f"gold{i}"))
-    ref_out = run_impl("drive_c11.py", dict(scenarios=refs, base=base, workers=3), timeout=300) if refs else []
-    nref, lastwait, nspawn = {}, {}, 34
+    ref_out = run_impl("drive_c11.py", dict(scenarios=refs, base=base, workers=4), timeout=300) if refs else []
+    nref, lastwait, nspawn, nspawn_tok = {}, {}, 34, 0
     for sc, o in zip(refs, ref_out):
         if o is None or not cases.usable(o):
             raise InternalError(f"reference run {sc['id']} did not complete: {json.dumps(o)[:1500] if o else o}")
         nref[sc["meta"]["kind"]] = nlines(o)
         lastwait[sc["meta"]["kind"]] = last_wait(o, markers)
-        if sc["meta"]["kind"] == "one":
+        if sc["meta"]["kind"] in ("one", "tok1"):
             # the first counted line at which the job process exists
             kk = 0
             for r in replay.parse_log(o["log"]):
                 if r["who"] != "P" and r["kind"] == "L" and r["rest"][0] in cases.KILLFUNCS:
                     kk += 1
                     if r["rest"][0] == "aio_run" and any(x.startswith("pid=") for x in r["rest"][3:]):
-                        nspawn = kk
+                        if sc["meta"]["kind"] == "one":
+                            nspawn = kk
+                        else:
+                            nspawn_tok = kk
                         break
     c.extra["reference_lines"] = nref
     if not c.replay:
-        scs += gen_scenarios(c, nref, lastwait, nspawn)
+        scs += gen_scenarios(c, nref, lastwait, nspawn, nspawn_tok)
     outs = run_impl("drive_c11.py", dict(scenarios=scs, base=base, workers=6, deadline=t_budget),
                     timeout=(240 if c.quick else 1500)) if scs else []
     allsc = list(zip(refs + scs, ref_out + outs))
@@ -327,6 +354,12 @@ def run(c: Check):
             c.count("kill:frozen-orphan")
         if m.get("linger"):
             c.count("kill:dependency-process-lingering")
+        if m.get("long_orphan"):
+            c.count("kill:unadoptable-job-runs-on-for-seconds")
+        if m.get("toctou"):
+            c.count("kill:job-ends-during-process-lookup")
+        if m.get("token_empty_pid"):
+            c.count("kill:token+empty-pid-file+slow-start")
         if m.get("silent_eoj"):
             c.count("kill:end-of-job-report-hanging")
         if fam == "restart":
